@@ -389,13 +389,18 @@ def box_deref(I, args, callee):
 
 @model('Box::new_uninit')
 def box_new_uninit(I, args, callee):
-    return BoxV(UNINIT)
+    # mirrors the layout the `vec![..]` lowering pokes into: Box(Unique(NonNull(ptr)), alloc); *ptr = MaybeUninit{_, value}
+    cell = [Adt('MaybeUninit', None, [unit(), Adt('ManuallyDrop', None, [Adt('MaybeDangling', None, [UNINIT])])])]
+    return Adt('BoxUninit', None, [Adt('Unique', None, [Adt('NonNull', None, [Ref(cell, 0)])]), Opaque('Global')])
 
 
 @model('box_assume_init_into_vec_unsafe', 'boxed::box_assume_init_into_vec_unsafe')
 def box_into_vec(I, args, callee):
     b = args[0]
-    inner = b.fields[0]
+    if type(b) is Adt and b.name == 'BoxUninit':
+        inner = b.fields[0].fields[0].fields[0].get().fields[1].fields[0].fields[0]
+    else:
+        inner = b.fields[0]
     if type(inner) is Adt and inner.name == 'MaybeUninit':
         inner = inner.fields[0]
     if type(inner) is Arr:
